@@ -62,11 +62,37 @@ def _related(p, q):
     return p == q or p.startswith(q + "/") or q.startswith(p + "/")
 
 
-def _interleaved(case):
-    """an engine step (or split-intake / mid-step item) is scheduled before the last user operation"""
+def _unconf(p):
+    """strip the engine's '.conflicted[N]' decoration from every path component"""
+    import re
+    return re.sub(r"\.conflicted\d*", "", p)
+
+
+def _op_paths(u):
+    return [x for x in u[3:] if isinstance(x, str) and x.startswith("/")]
+
+
+def _unquiesced_related(case, is_trigger):
+    """True iff some trigger op (e.g. a rename) and some *other* user op on a related path (equal, ancestor or
+    descendant of one of the trigger's paths) are applied without the engine having gone quiet in between
+    (no 'Q' item between them) - i.e. the schedule is not 'eager' around the trigger.  Returns the set of
+    trigger paths, or None."""
     plan = case.get("plan", [])
-    last_u = max([i for i, it in enumerate(plan) if it and it[0] == "U"] + [-1])
-    return any(it and it[0] in ("S", "E", "Q", "M") for it in plan[:last_u])
+    users = [(i, it) for i, it in enumerate(plan) if it and it[0] == "U"]
+    out = set()
+    for i, t in users:
+        if not is_trigger(t):
+            continue
+        tp = _op_paths(t)
+        for j, u in users:
+            if j == i:
+                continue
+            lo, hi = min(i, j), max(i, j)
+            if any(it and it[0] == "Q" for it in plan[lo + 1:hi]):
+                continue
+            if any(_related(p, q) for p in tp for q in _op_paths(u)):
+                out.update(tp)
+    return out or None
 
 
 def _diff_paths(viol):
@@ -81,45 +107,46 @@ def _diff_paths(viol):
 
 
 def m_rename_race(f, case, viol):
-    """mechanism: a rename (file or folder) that is *necessary* for the failure (it survives 1-minimisation)
-    races with engine steps; every differing path is the source/destination of such a rename or lies
-    under/above one."""
+    """mechanism: a rename (file or folder) that is *necessary* for the failure (it survives 1-minimisation) and
+    another user operation on a related path happen before the engine has gone quiet in between; every differing
+    path is (a '.conflicted' variant of) a source/destination of such a rename or lies under/above one."""
     if not m_history(f, case, viol):
         return False
-    rp = set()
-    for u in user_ops(case):
-        if u[2] in ("rename", "rename_dir"):
-            rp.add(u[3])
-            rp.add(u[4])
-    if not rp or not _interleaved(case):
+    rp = _unquiesced_related(case, lambda u: u[2] in ("rename", "rename_dir"))
+    if not rp:
         return False
     if viol["cls"] in ("nonquiescent",):
         return True
     paths = _diff_paths(viol)
-    return bool(paths) and all(any(_related(p, q) for q in rp) for p in paths)
+    return bool(paths) and all(any(_related(_unconf(p), q) for q in rp) for p in paths)
 
 
 def m_dirdelete_race(f, case, viol):
-    """mechanism: a folder delete races with engine steps while another folder is created on the same side
-    (path-style ids: delete+create of equal 'hash' None is taken for a rename) or children appear under it
-    on the peer."""
+    """mechanism: a folder delete and another user operation on a related path (or a folder created on the same
+    side: path-style ids take delete+mkdir, both 'hash' None, for a rename) without quiet in between."""
     if not m_history(f, case, viol):
         return False
-    dp = set()
-    mk = set()
-    for u in user_ops(case):
-        if u[2] in ("rmdir", "rmtree"):
-            dp.add(u[3])
-        if u[2] == "mkdir":
-            mk.add(u[3])
-    if not dp or not _interleaved(case):
-        return False
     if any(u[2] in ("rename", "rename_dir") for u in user_ops(case)):
+        return False
+    plan = case.get("plan", [])
+    dels = [(i, it) for i, it in enumerate(plan) if it and it[0] == "U" and it[2] in ("rmdir", "rmtree")]
+    rel = set()
+    for i, d in dels:
+        for j, u in enumerate(plan):
+            if j == i or not u or u[0] != "U":
+                continue
+            lo, hi = min(i, j), max(i, j)
+            if any(it and it[0] == "Q" for it in plan[lo + 1:hi]):
+                continue
+            if u[2] == "mkdir" or any(_related(d[3], q) for q in _op_paths(u)):
+                rel.add(d[3])
+                rel.update(_op_paths(u))
+    if not rel:
         return False
     if viol["cls"] in ("nonquiescent",):
         return True
     paths = _diff_paths(viol)
-    return bool(paths) and all(any(_related(p, q) for q in dp | mk) for p in paths)
+    return bool(paths) and all(any(_related(_unconf(p), q) for q in rel) for p in paths)
 
 
 MATCHERS = {"history": m_history, "rename_race": m_rename_race, "dirdelete_race": m_dirdelete_race}
